@@ -25,6 +25,10 @@ CASES = {
     'struct-members:assign-p|assign-p': ('mem', [[['assign', 'pid_p', 1.0]], [['assign', 'pid_p', 3.0], ['assign', 'pid_i', 4.0]]]),
     'struct-members:write-struct|assign-i': ('mem', [[['write', 'pid', {'p': 3.0, 'i': 4.0}]], [['assign', 'pid_i', 2.0]]]),
     'struct-members:read-struct|assign-p': ('mem', [[['read', 'pid']], [['assign', 'pid_p', 6.0]]]),
+    # two access methods (both serialised on the access lock): a poll of the struct and a client write of a member
+    'struct-members:read-struct|write-member': ('mem', [[['read', 'pid']], [['write', 'pid_p', 5.0]]]),
+    'struct-members:write-struct|read-member': ('mem', [[['write', 'pid', {'p': 3.0, 'i': 4.0}]], [['read', 'pid_i']]]),
+    'struct-rw:read|write-member': ('rw', [[['read', 'pid']], [['write', 'pid_i', 6.0]]]),
     # float / enum pair
     'floatenum:assign-idx|assign-idx': ('fe', [[['assign', 'rng_idx', 1]], [['assign', 'rng_idx', 2]]]),
     'floatenum:write-float|assign-idx': ('fe', [[['write', 'rng', 0.9]], [['assign', 'rng_idx', 1]]]),
